@@ -8,6 +8,8 @@ Classes (a small lattice, joined pessimistically):
   INT       an int, or the decimal text of one
   HEX       text over [0-9a-f] only
   SQD       text in which every ' has been doubled
+  SQDC      SQD in which every ':' has also been written '\\:' (what sqlalchemy.text() needs: it reads ':name' as a bind parameter - inside quotes too - and
+            strips the backslash of '\\:', so an un-escaped value either fails the statement or is compared as a different string)
   REPR      Python repr() of a validated primitive (closed literal)
   JSON      output of a JSON encoder (closed JSON value)
   RAW       client-controlled text without any mark
@@ -24,6 +26,7 @@ from .cfg import CFG, cfg_of
 from .core import call_name, dotted, enclosing_stmt, own_nodes, stmt_assigns, walk_no_nested
 
 CONST, FRAG, INT, HEX, SQD, REPR, JSON, RAW, UNKNOWN = "CONST", "FRAG", "INT", "HEX", "SQD", "REPR", "JSON", "RAW", "UNKNOWN"
+SQDC = "SQDC"
 BAD = {RAW, UNKNOWN}
 
 
@@ -43,6 +46,9 @@ def join(a, b):
         if b in (CONST, None):
             return a
         return UNKNOWN
+    if "COLON" in (a, b):
+        a = RAW if a == "COLON" else a
+        b = RAW if b == "COLON" else b
     if RAW in (a, b):
         return RAW
     if UNKNOWN in (a, b):
@@ -415,7 +421,7 @@ class Interp:
         if fname == "repr":
             return REPR
         if fname == "str":
-            return INT if inner == INT else (inner if inner in (HEX, SQD, CONST, FRAG, REPR, JSON) else RAW if inner == RAW else UNKNOWN)
+            return INT if inner == INT else (inner if inner in (HEX, SQD, SQDC, CONST, FRAG, REPR, JSON) else RAW if inner == RAW else UNKNOWN)
         return UNKNOWN
 
     def call(self, c: ast.Call, stmt, bound=()):
@@ -463,14 +469,23 @@ class Interp:
                     return FRAG
                 if self.sink == "json" and isinstance(recv, ast.Constant) and recv.value == "," and e in (JSON, INT, FRAG, CONST):
                     return FRAG  # comma-separated JSON values: the body of an array
-                if e in (HEX, SQD, REPR, JSON) and isinstance(recv, ast.Constant) and recv.value == "":
+                if e in (HEX, SQD, SQDC, REPR, JSON) and isinstance(recv, ast.Constant) and recv.value == "":
                     return e
                 return RAW if e == RAW else UNKNOWN
             if meth == "replace" and len(c.args) == 2:
                 r = sub(recv)
                 a, b = c.args
                 if isinstance(a, ast.Constant) and isinstance(b, ast.Constant) and a.value == "'" and b.value == "''":
+                    if r in (SQDC, "COLON"):
+                        return SQDC
                     return SQD if r in (RAW, SQD, HEX, CONST, FRAG) else UNKNOWN
+                if isinstance(a, ast.Constant) and isinstance(b, ast.Constant) and a.value == ":" and b.value == "\\:":
+                    # the escape sqlalchemy.text() understands; order of the two replaces does not matter (neither introduces the other's character)
+                    if r in (SQD, SQDC):
+                        return SQDC
+                    if r in (HEX, CONST, FRAG, INT):
+                        return r
+                    return "COLON" if r in (RAW, "COLON") else UNKNOWN
                 rb = sub(b)
                 if r in (RAW, SQD, HEX):
                     self.alterations.append((c, stmt))
@@ -529,8 +544,12 @@ class Interp:
             if conversion == "d":
                 return True, "%d forces a number"
             if position == "quoted":
-                if cl in (HEX, SQD, INT):
+                if cl in (HEX, SQDC, INT):
                     return True, f"{cl} inside a quoted literal"
+                if cl == SQD:
+                    return False, ("SQD inside a quoted literal of a statement handed to sqlalchemy.text(): quotes are doubled but colons are not escaped - text() takes `:word` for a bind "
+                                   "parameter even inside quotes (the statement fails, the stream ends empty) and turns `\\:` into `:` (the value `a\\:b` is compared as `a:b`: "
+                                   "events with another tag value are returned)")
                 return False, f"{cl} inside a single-quoted SQL literal (needs ' doubling or a hex-only value)"
             if cl in (INT, FRAG, CONST):
                 return True, f"{cl} bare"
